@@ -1,6 +1,6 @@
 """C09 - Responses respect the transport size limit and truncate well-formedly (DESIGN.md section 4, C09)."""
 import json
-import vf, wirefam
+import vf, wirefam, routerfam
 
 
 def run(ctx):
@@ -13,8 +13,12 @@ def run(ctx):
     ctx.sample({"pack_event": {k: (v if k not in ("wire", "msg") else "...") for k, v in e.items()}})
     ctx.validate("WireTrace", t1, wirefam.keyfn, describe=wirefam.describe, only=["Inv_C09_", "Unconsumable"],
                  timeout=3000, require_events=2000)
+    # listener level: the limit each transport applies (advertised UDP size, 65535 elsewhere)
+    rdrv = vf.build_driver("routerdrv")
+    trace, _ = routerfam.run_mode(ctx, rdrv, "c09")
+    routerfam.validate(ctx, trace, only=["Inv_C09_", "Inv_C03_Decodable", "Inv_C03_Header", "Unconsumable"], require_events=400)
     ctx.assumptions += [
         "the properties are evaluated on the decoded result of Msg.Pack (limit, TC iff omitted, counts, question and OPT kept, answer/authority order) - not on which records the algorithm chooses to drop",
-        "listener-level limits (UDP advertised size, 65535 on stream transports) are exercised by the router driver (C09 listener part)",
+        "listener part: answers of 1.3 KB, 3 KB and 65.3 KB (325 TXT records) fetched over a TCP upstream and requested on all 8 listener kinds, over UDP with no OPT and advertised sizes 0, 512, 600, 1232, 4096, 65535",
     ]
     return ctx.finish()
